@@ -36,9 +36,9 @@ META = {
                   "Teeth: C07_revert_keeps_cache_panics/_refuted/_overwrite_refuted (revert = clone), C07_inplace_revert_refuted, C07_deps_incomplete_refuted/_after_override_refuted. "
                   "Ties: (A) harness c07fv parses source with the real parser, converts it with to_mainline, runs transform::free_vars::transform, prints the real term in the model's syntax (exhaustive matches, a new variant does not compile; the Rust enums are also read from source and compared with the covered constructors) and its RecordDeps; the extracted model is run on that term: corpus, every .ncl file of /repo (stdlib included), generated programs over 5 colliding names, and the operand records of generated override cases (programs that can also be evaluated): model vs Rust, and the Rust tables of the record as written (local binders named like its fields) vs the same record with every let / fun / pattern binder renamed apart; for every field whose table differs the override history that exposes it is synthesised (override exactly the field whose dependency differs, read every field) and judged by the direct oracle, so a wrong table is reported with a concrete failing program. "
                   "(B) generated override histories on the extracted mechanism model (configured as closurize.rs is, read from source), on the extracted specification and on the real interpreter (every field of every step, by value or error class; normal and with hook H4). "
-                  "(O) on the implementation alone, structured records with static, nested, piecewise, dynamically named and included fields, dependencies through arithmetic, interpolation, if, arrays, functions, match, inline records, contracts depending on fields, local binders named like the fields in every binder form (let, let rec, multi-binding let, fun, curried fun, record / array / enum patterns in let, fun and match, matches with several guarded arms whose later arms mention the field an earlier arm rebinds), piecewise definitions of 1-2 pieces, dynamically named fields at both levels, 1-3 overriding operands in 7 merge shapes: merged = textually substituted record WITH EVERY BINDER RENAMED APART (no binder can capture a field there; a difference that the substituted record reproduces with its binders as written is reported as a scoping defect) (whole export, and leaf by leaf when some field fails), = the same with all dependencies unknown, operands read after the merge = operands alone, merge after forcing the operands = merge.",
+                  "(O) on the implementation alone, structured records with static, nested, piecewise, dynamically named and included fields, dependencies through arithmetic, interpolation, if, arrays, functions, match, inline records, contracts depending on fields, local binders named like the fields in every binder form (let, let rec, multi-binding let, fun, curried fun, record / array / enum patterns in let, fun and match, matches with several guarded arms whose later arms mention the field an earlier arm rebinds), piecewise definitions of 1-2 pieces, dynamically named fields at both levels, operands that are the `..rest` of a record pattern (match / let / fun) applied to a recursive literal whose remaining fields depend on the extracted ones (reference: the remaining fields frozen at their value in the literal, as std.record.remove gives them; a difference that disappears when the rest is built by std.record.remove is the class rest-pattern-not-frozen), 1-3 overriding operands in 7 merge shapes: merged = textually substituted record WITH EVERY BINDER RENAMED APART (no binder can capture a field there; a difference that the substituted record reproduces with its binders as written is reported as a scoping defect) (whole export, and leaf by leaf when some field fails), = the same with all dependencies unknown, operands read after the merge = operands alone, merge after forcing the operands = merge.",
     "level_note": "Trusted: Coq kernel; extraction (ExtrOcamlBasic only); harness bins c07fv and nkeval; the Python generators; the reading of lazy.rs / merge.rs / fixpoint.rs / closurize.rs / eval/mod.rs in coq/Rec/Mech.v (value level: Rc<RefCell> thunks as cells of a list heap; `cached = Some rid` stands for the closure built by init_cached; saturate's explicit function + application is represented by a body that keeps its own dependency filter; constants are standard thunks; the order of fields inside a record and memoisation of evaluated thunks are not modelled - the latter is exercised by the forcing-order variants of the correspondence). "
-                  "Partial: the Coq mechanism/specification cover records of integer expressions nested two levels deep (the inner instance is obtained by substituting the outcomes of the enclosing instance's fields, which its immutability justifies; thunk environments are not modelled as such); a record reached through an alias (`b = a` with `a` a record), records inside nested records, and the structural comparison of two records by a contract are reported by the model as outside the fragment and not compared; piecewise paths, includes, strings, arrays, functions and general contract expressions are covered by part A (dependency analysis, all syntax) and by the direct oracles on the implementation, not by the refinement proof. Hook H4 (all dependencies unknown) is dynamic scoping: it equals the normal run only on closed literals (C07_depsunknown_equiv); a nested literal that mentions a field of the enclosing record is not closed, and under H4 a field of that name merged into the nested record later captures the mention, so histories with nested literals are not run under H4 (the broad generator keeps the names of the two levels apart). Findings fixed during the build: dynamic-field-not-recomputed (8192ce0, patch kept in proposed/C07-record-insert-keep-revertible-thunk.diff); match-guard-scope (28e04ba, proposed/C07-match-guard-scope.diff: the variables of a guarded match arm stayed in scope in the following arms, so a field defined by such a match read the pattern variable where it named a sibling field and did not follow the overridden sibling - pattern compilation runs before the dependency analysis, so the tables were consistent with the wrongly scoped term and the defect is visible only against the binder-renamed reference).",
+                  "Partial: the Coq mechanism/specification cover records of integer expressions nested two levels deep (the inner instance is obtained by substituting the outcomes of the enclosing instance's fields, which its immutability justifies; thunk environments are not modelled as such); a record reached through an alias (`b = a` with `a` a record), records inside nested records, and the structural comparison of two records by a contract are reported by the model as outside the fragment and not compared; piecewise paths, includes, strings, arrays, functions and general contract expressions are covered by part A (dependency analysis, all syntax) and by the direct oracles on the implementation, not by the refinement proof. Hook H4 (all dependencies unknown) is dynamic scoping: it equals the normal run only on closed literals (C07_depsunknown_equiv); a nested literal that mentions a field of the enclosing record is not closed, and under H4 a field of that name merged into the nested record later captures the mention, so histories with nested literals are not run under H4 (the broad generator keeps the names of the two levels apart). Known finding (unrepaired at the time of writing, repair in proposed/C07-rest-pattern-freeze.diff): rest-pattern-not-frozen - the rest of a record pattern is built by %record/remove% on the unfrozen matched record, so its fields are reverted by a later merge and recomputed without the extracted field (unbound identifier, or values that follow overrides where std.record.remove's result is frozen). Findings fixed during the build: dynamic-field-not-recomputed (8192ce0, patch kept in proposed/C07-record-insert-keep-revertible-thunk.diff); match-guard-scope (28e04ba, proposed/C07-match-guard-scope.diff: the variables of a guarded match arm stayed in scope in the following arms, so a field defined by such a match read the pattern variable where it named a sibling field and did not follow the overridden sibling - pattern compilation runs before the dependency analysis, so the tables were consistent with the wrongly scoped term and the defect is visible only against the binder-renamed reference).",
 }
 
 REPO = core.REPO
@@ -595,6 +595,14 @@ GUARD_TEXT = ("the pattern variables of a guarded match arm stay in scope in the
               "sibling field, and does not follow the sibling: `({b | default = 5, a = 1 |> match { b if b > 3 => 0, _ => b }} & {b = 7}).a` gives 1")
 
 
+REST_KEY = "rest-pattern-not-frozen"
+REST_TEXT = ("the `..rest` of a record pattern is built with %record/remove% on the matched record as it is (pattern/compile.rs), not on a frozen "
+             "copy as std.record.remove does: the remaining fields keep their live dependencies on the extracted fields, so a later merge reverts "
+             "them and recomputes them where the extracted field no longer exists: `({e = 1} & ({a = 1, d = a} |> match { {a = v, ..rest} => rest })).d` "
+             "fails with unbound identifier `a` (1 without the merge), and fields that only depend on remaining fields follow later overrides "
+             "although the rest built by std.record.remove is frozen")
+
+
 def oracles(ck, extra_cases=()):
     rng = core.SplitMix64(ck.seed * 1000003 + 703)
     n = N_OVERRIDE_OV or (800 if ck.tier == "quick" else 25000)
@@ -605,7 +613,7 @@ def oracles(ck, extra_cases=()):
     for line in corpus_lines("overrides.case"):
         o = json.loads(line)
         cases.append({"shape": "corpus", "nops": 1, "features": ["corpus"], "progs": {"merged": o["merged"], "subst": o["subst"]},
-                      "lets": None, "paths": o.get("paths"), "variants": o.get("variants")})
+                      "lets": None, "paths": o.get("paths"), "variants": o.get("variants"), "rest_operands": o.get("rest_operands")})
     cases += list(extra_cases)
     ncorpus = len(cases)
     for _ in range(n):
@@ -641,8 +649,10 @@ def oracles(ck, extra_cases=()):
         if "<missing>" in (m, s, u):
             continue                      # the run itself failed (reported above)
         ck.hist("merged_outcome", "OK" if m.startswith("OK") else m.split()[1] if len(m.split()) > 1 else m)
+        # (a case with the rest of a record pattern: a failure of the merged program alone is classified in phase 3)
+        rest_case = bool(c.get("rest_operands")) and not crash(s)
         for o in (m, s, u):
-            if crash(o):
+            if crash(o) and not rest_case:
                 ck.violation("oracle:crash:" + o.split()[1] if len(o.split()) > 1 else "oracle:crash",
                              "an override sequence fails with %s" % o,
                              {"case": c["progs"], "outcomes": r, "how_to_replay": "./verif check C07 --replay <this file>"})
@@ -661,7 +671,7 @@ def oracles(ck, extra_cases=()):
                 if m != s:
                     mism.append({"ci": ci, "path": None, "m": m, "s": s, "key": "oracle:subst:" + c["shape"], "obj": obj,
                                  "text": "R & P1 & ... differs from the record with the winning definitions substituted: %s vs %s" % (m[:120], s[:120])})
-                if m != u:
+                if m != u and not (rest_case and m != s):
                     ck.violation("oracle:depsunknown:" + c["shape"],
                                  "R & P1 & ... differs from the same program with all field dependencies unknown (H4)", obj)
                 continue
@@ -673,8 +683,8 @@ def oracles(ck, extra_cases=()):
                     where2.append((ci, "leaf", p, name + ("-H4" if fl else "")))
         elif not (m.startswith("OK") and s.startswith("OK") and u.startswith("OK")):
             if (m.startswith("OK") != s.startswith("OK")) or (m.startswith("OK") != u.startswith("OK")):
-                ck.violation("oracle:subst:corpus", "corpus override: merged %s, substituted %s, H4 %s" % (m[:80], s[:80], u[:80]),
-                             {"case": c["progs"], "outcomes": r})
+                mism.append({"ci": ci, "path": None, "m": m, "s": s, "key": "oracle:subst:corpus", "obj": {"case": c["progs"], "outcomes": r},
+                             "text": "corpus override: merged %s, substituted %s, H4 %s" % (m[:80], s[:80], u[:80])})
         if c.get("lets") and "alone:o0" in r:
             ok_ops = [nm for nm in c["names"] if r.get("alone:" + nm, "").startswith("OK")]
             ck.hist("operands_exportable_alone", len(ok_ops))
@@ -713,8 +723,9 @@ def oracles(ck, extra_cases=()):
         ck.count("oracle_leaf_checks")
         c = cases[ci]
         m, s, u = d.get("merged"), d.get("subst"), d.get("merged-H4")
+        rest_case = bool(c.get("rest_operands")) and not crash(s or "")
         for o in (m, s, u):
-            if o and crash(o):
+            if o and crash(o) and not rest_case:
                 ck.violation("oracle:crash:" + o.split()[1], "field %s of an override sequence fails with %s" % (p, o),
                              {"case": c["progs"], "field": p, "outcomes": d})
         if m != s:
@@ -732,7 +743,7 @@ def oracles(ck, extra_cases=()):
                 obj["overridden_field"] = c.get("overridden")
             mism.append({"ci": ci, "path": p, "m": m, "s": s, "key": "oracle:subst-leaf:" + c["shape"], "obj": obj,
                          "text": "field %s: R & P1 & ... gives %s, the substituted record gives %s" % (p, (m or "")[:80], (s or "")[:80])})
-        if m != u and not (diverges(m or "") and diverges(u or "")):
+        if m != u and not (diverges(m or "") and diverges(u or "")) and not (rest_case and m != s):
             ck.violation("oracle:depsunknown-leaf:" + c["shape"],
                          "field %s: %s normally, %s with all dependencies unknown" % (p, (m or "")[:80], (u or "")[:80]),
                          {"case": c["progs"], "field": p, "outcomes": d, "how_to_replay": "./verif check C07 --replay <this file>"})
@@ -756,7 +767,12 @@ def oracles(ck, extra_cases=()):
         sw, sg = v.get("subst-as-written"), v.get("subst-guards-renamed")
         x["obj"]["substituted_with_binders_as_written"] = sw
         x["obj"]["substituted_with_guarded_arm_variables_renamed"] = sg
-        if same(x["m"], sw) and same(x["s"], sg) and not same(sw, sg):
+        st = v.get("merged-with-the-rest-built-by-std.record.remove")
+        x["obj"]["merged_with_the_rest_built_by_std_record_remove"] = st
+        if st is not None and same(st, x["s"]) and not same(x["m"], x["s"]):
+            ck.count("rest_pattern_not_frozen_cases")
+            ck.violation(REST_KEY, REST_TEXT, x["obj"])
+        elif same(x["m"], sw) and same(x["s"], sg) and not same(sw, sg):
             ck.count("match_guard_scope_cases")
             ck.violation(GUARD_KEY, GUARD_TEXT, x["obj"])
         elif same(x["m"], sw) and not same(x["s"], sw):
